@@ -478,7 +478,7 @@ Section Keys.
 
     Theorem zcp_requested_in_range n sp (E : env (M := M)) i0 fixed n_outer n_inner zero fs m k s p :
       constrained_cp dM op (zvalidate truthy n sp) msub madd E n i0 fixed n_outer n_inner zero = Ok fs ->
-      m < length fs -> init_computed i0 = true \/ (In m (modes_list n fixed) /\ 0 < n_outer) ->
+      m < length fs -> init_computed i0 = true \/ (In m (modes_list n fixed) /\ 0 < n_outer /\ 0 < n_inner) ->
       In (k, s) sp -> zrequested n s m p ->
       exists v, nth m fs dM = op k p v.
     Proof.
@@ -493,7 +493,7 @@ Section Keys.
        the request made for that mode - the plain least-squares iterate / raw initial factor iff nobody made one *)
     Theorem zcp_validated n sp (E : env (M := M)) i0 fixed n_outer n_inner zero fs m :
       constrained_cp dM op (zvalidate truthy n sp) msub madd E n i0 fixed n_outer n_inner zero = Ok fs ->
-      m < length fs -> init_computed i0 = true \/ (In m (modes_list n fixed) /\ 0 < n_outer) ->
+      m < length fs -> init_computed i0 = true \/ (In m (modes_list n fixed) /\ 0 < n_outer /\ 0 < n_inner) ->
       exists c v, nth m fs dM = prox_of op c v /\
         (forall k p, c = Some (k, p) <-> exists s, In (k, s) sp /\ zrequested n s m p) /\
         (c = None <-> forall k s p, In (k, s) sp -> ~ zrequested n s m p).
@@ -507,7 +507,7 @@ Section Keys.
     Theorem zcp_feasible (feas : kind -> P -> M -> Prop) n sp (E : env (M := M)) i0 fixed n_outer n_inner zero fs m k s p :
       (forall k p v, feas k p (op k p v)) ->
       constrained_cp dM op (zvalidate truthy n sp) msub madd E n i0 fixed n_outer n_inner zero = Ok fs ->
-      m < length fs -> init_computed i0 = true \/ (In m (modes_list n fixed) /\ 0 < n_outer) ->
+      m < length fs -> init_computed i0 = true \/ (In m (modes_list n fixed) /\ 0 < n_outer /\ 0 < n_inner) ->
       In (k, s) sp -> zrequested n s m p ->
       feas k p (nth m fs dM).
     Proof.
